@@ -313,9 +313,12 @@ def substitute(exprs, repl):  # noqa: C901
             expr = repl[expr]
             didrepl = True
         if didrepl:
+            # insert the replacement as given: do not descend into it, it
+            # may contain its own key (e.g. {a: (+ a 1)})
             changed = True
-            if expr is None:
-                continue
+            if expr is not None:
+                args[-1].append(expr)
+            continue
 
         if visited:
             children = args.pop()
